@@ -377,8 +377,10 @@ def run_property(pid, tier, jobs, nontrivial_rule, nontrivial_fn, model_runs=Non
             states += st2
             trans += tr2
             ndiv = 0
+            und = set(engmodel.UNDECIDED)
+            engmodel.UNDECIDED.clear()
             for i, t in enumerate(scope):
-                if i not in acc:
+                if i not in acc and i not in und:
                     ndiv += 1
                     if ndiv <= 5:
                         k = reached.get(i, 0)
@@ -386,7 +388,8 @@ def run_property(pid, tier, jobs, nontrivial_rule, nontrivial_fn, model_runs=Non
                         verdict.divergence('run [%s policy=%s seed=%s] is not a behaviour of MistralEngine: matched %d of %d steps, next event %s:%s%s'
                                            % (t['meta'].get('label'), t['meta']['policy'], t['meta']['seed'], k, len(t['steps']),
                                               nxt.get('kind'), nxt.get('what'), ('/' + nxt.get('phase')) if nxt.get('phase') else ''))
-            strict_info.update({'traces_in_model_scope': len(scope), 'traces_accepted_strict': len(acc), 'divergences': ndiv})
+            strict_info.update({'traces_in_model_scope': len(scope), 'traces_accepted_strict': len(acc), 'divergences': ndiv,
+                                'traces_undecided_search_too_large': len(und)})
     post_info = post(d, traces, verdict) if post else {}
     nontrivial = set()
     for t in traces:
